@@ -55,6 +55,12 @@ def gen(rng, tier, run):
     tree['title'] = rng.choice(['Main', 'index', 'Report'])
     if rng.random() < 0.6:   # mostly distinct siblings
         dedup(tree, rng)
+    # the same Rst object also formats another report: before this one, or between formatting and writing this one
+    r = rng.random()
+    if r < 0.15:
+        tree['other'] = 'before'
+    elif r < 0.45:
+        tree['other'] = 'between'
     return tree
 
 
@@ -71,11 +77,11 @@ def dedup(tree, rng):
 def shrink(case):
     items = case['items']
     for i in range(len(items)):
-        yield {'title': case['title'], 'items': items[:i] + items[i + 1:]}
+        yield dict(case, items=items[:i] + items[i + 1:])
     for i, it in enumerate(items):
         if 'sec' in it:
             for sub in shrink(it['sec']):
-                yield {'title': case['title'], 'items': items[:i] + [{'sec': sub}] + items[i + 1:]}
+                yield dict(case, items=items[:i] + [{'sec': sub}] + items[i + 1:])
 
 
 def sections(tree, chain=()):
@@ -165,8 +171,18 @@ def run_impl(case, run):
     try:
         report = build(case, maps)
         rst = Rst(stb['StubRepr']())
+        def other_report():
+            decoy = {'title': 'Another report', 'items': [{'res': [900001, None]}, {'sec': {'title': 'S', 'items': [{'res': [900002, 7]}]}}]}
+            try:
+                rst.format_report(report=build(decoy, {'anchor': {}}), author='someone else', version='1')
+            except Exception:  # pylint: disable=broad-except
+                pass
         try:
+            if case.get('other') == 'before':
+                other_report()
             fmt = rst.format_report(report=report, author='me', version='0')
+            if case.get('other') == 'between':
+                other_report()
             plot_ids = {}
             for fpr, mpl in fmt.plots.items():
                 plot_ids[str(fpr)] = int(mpl.data.subplots[0].curves[0].values[0])
@@ -211,7 +227,7 @@ def run_impl(case, run):
 
 
 def run_model(case, driver, run):
-    return driver.ask('report', case)
+    return driver.ask('report', {k: v for k, v in case.items() if k != 'other'})
 
 
 def compare(case, impl, model):
